@@ -13,7 +13,7 @@ PROPERTY = 'C19'
 META = {
     'bounds': 'reply status code: any integer in {200, 204} U [400, 599] '
               '(symbolic); body shape in {valid result, error object, error '
-              'object with cause, partial error object, non-JSON, empty} '
+              'object with cause, error object with an empty message, partial error object, non-JSON, empty} '
               '(fork); every credential field None / empty / a symbolic '
               '1-character string (all 16 presence subsets of username, '
               'access token, client token, profile); returned tokens and '
@@ -34,7 +34,8 @@ META = {
 
 AUTH = 'https://authserver.mojang.com'
 SESSION = 'https://sessionserver.mojang.com/session/minecraft'
-SHAPES = ['valid', 'error', 'error_cause', 'partial', 'nonjson', 'empty']
+SHAPES = ['valid', 'error', 'error_cause', 'partial', 'nonjson', 'empty',
+          'error_blank']
 OPS = ['authenticate', 'authenticate_invalidate', 'refresh', 'validate',
        'invalidate', 'join', 'sign_out']
 
@@ -106,7 +107,7 @@ class RequestsStub:
         elif klass == 1:
             shape = 'empty'
         else:
-            shape = SHAPES[1 + concretize(ctx.int('shape%d' % k, 0, 4))]
+            shape = SHAPES[1 + concretize(ctx.int('shape%d' % k, 0, 5))]
         S = lambda n: sstr.ctx_str(ctx, '%s%d' % (n, k), 1)   # noqa: E731
         if shape == 'valid':
             body = {'accessToken': S('at'), 'clientToken': S('ct'),
@@ -118,6 +119,9 @@ class RequestsStub:
                     'cause': S('cause')}
         elif shape == 'partial':
             body = {'error': S('err')}
+        elif shape == 'error_blank':
+            # a complete error object whose message is the empty string
+            body = {'error': S('err'), 'errorMessage': ''}
         else:
             body = None
         r = Reply(status, shape, body)
@@ -305,7 +309,7 @@ def _step_ok(op, before, tok, made, rep, result, exc, args, was_auth,
         cs.append(beq(exc.status_code, status))
         cs.append(_unchanged(before, tok))
         msg = exc.args[0] if exc.args else ''
-        if rep.shape in ('error', 'error_cause'):
+        if rep.shape in ('error', 'error_cause', 'error_blank'):
             cs.append(_seq(exc.yggdrasil_error, rep.body['error']))
             cs.append(_seq(exc.yggdrasil_message, rep.body['errorMessage']))
             cs.append(_seq(exc.yggdrasil_cause, rep.body.get('cause')))
